@@ -116,13 +116,8 @@ def StrIndexOf(input_string, substring, startIndex):
 
     :return BV:                     index of the substring or -1 in bitvector
     """
-    try:
-        s = input_string.value
-        t = substring.value
-        i = startIndex.value
-        return BVV(i + s[i:].index(t), 64)
-    except ValueError:
-        return BVV(-1, 64)
+    # str.find is -1 for a start index beyond the end, also for an empty pattern, like str.indexof
+    return BVV(input_string.value.find(substring.value, startIndex.value), 64)
 
 
 def StrToInt(input_string):
